@@ -573,7 +573,7 @@ def main(argv=None):
         chk = factory()
         chk.tier = args.tier
         return runner.print_digests(chk, runner.parse_runs(args.digests), args.repeat)
-    runs = args.runs if args.runs is not None else (182 if args.tier == "quick" else 12000)
+    runs = args.runs if args.runs is not None else (342 if args.tier == "quick" else 40000)
     if args.no_reference:
         C17Check.with_reference = False
     C17Check.default_tier = args.tier
